@@ -416,6 +416,10 @@ def run_pipeline(
         # The detector should be reset before exposure
         detector.empty()
 
+        if debug:
+            # Start a new record of intermediate results (nothing of an earlier run on this detector)
+            detector._intermediate = None
+
         if _verif.ENABLED:
             _verif.emit(
                 "run_begin",
